@@ -6,16 +6,20 @@ From MLV Require Import model.Rtt.
 Import ListNotations.
 Open Scope Q_scope.
 
+Lemma MIN_pos : 0 < MIN_TIMEOUT.
+Proof. reflexivity. Qed.
+
 Definition rtt_ok (D : Q) (r : rtt) : Prop := MIN_TIMEOUT <= r_est r /\ r_est r <= D /\ 0 <= r_dev r /\ r_dev r <= D.
 
 Lemma rtt_update_ok D r s : MIN_TIMEOUT <= D -> s <= D -> rtt_ok D r -> rtt_ok D (rtt_update r s).
 Proof.
-  unfold rtt_ok, MIN_TIMEOUT. intros HD Hs (E1 & E2 & V1 & V2). unfold rtt_update.
+  unfold rtt_ok. pose proof MIN_pos as HM. intros HD Hs (E1 & E2 & V1 & V2). unfold rtt_update.
   destruct (Qle_bool MIN_TIMEOUT s) eqn:B; [|tauto].
-  apply Qle_bool_iff in B. unfold MIN_TIMEOUT in B. cbn [r_est r_dev].
+  apply Qle_bool_iff in B. cbn [r_est r_dev].
   rewrite !Qred_correct.
+  set (m := MIN_TIMEOUT) in *.
   set (e := (7 # 8) * r_est r + (1 # 8) * s).
-  assert (Ee: (1 # 2) <= e /\ e <= D) by (unfold e; split; lra).
+  assert (Ee: m <= e /\ e <= D) by (unfold e; split; lra).
   assert (A: 0 <= Qabs (s - e) /\ Qabs (s - e) <= D).
   { split; [apply Qabs_nonneg|]. apply Qabs_Qle_condition. split; lra. }
   repeat split; try lra.
@@ -27,14 +31,14 @@ Proof.
   intros HD F. unfold rtt_run.
   assert (G: forall r, rtt_ok D r -> rtt_ok D (fold_left rtt_update samples r)).
   { induction F as [|s l Hs F IH]; intros r Hr; [exact Hr|]. cbn [fold_left]. apply IH. now apply rtt_update_ok. }
-  apply G. unfold rtt_ok, rtt0, MIN_TIMEOUT in *. cbn. repeat split; lra.
+  apply G. pose proof MIN_pos as HM. unfold rtt_ok, rtt0. cbn [r_est r_dev]. set (m := MIN_TIMEOUT) in *. repeat split; lra.
 Qed.
 
 (* the timeout in force: never below 500 ms, never above five times the slowest reply (or 2.5 s) *)
 Theorem timeout_bounded D samples : MIN_TIMEOUT <= D -> Forall (fun s => s <= D) samples ->
   MIN_TIMEOUT <= rtt_timeout (rtt_run samples) /\ rtt_timeout (rtt_run samples) <= 5 * D.
 Proof.
-  intros HD F. destruct (rtt_bounded D samples HD F) as (E1 & E2 & V1 & V2). unfold rtt_timeout, MIN_TIMEOUT in *. split; lra.
+  intros HD F. destruct (rtt_bounded D samples HD F) as (E1 & E2 & V1 & V2). unfold rtt_timeout. set (m := MIN_TIMEOUT) in *. split; lra.
 Qed.
 
 (* replies faster than 500 ms never change it *)
